@@ -336,6 +336,18 @@ def oracle_directed(rng):
                 if a[0] == b[0] == 'solved' and math.isfinite(a[1]) and math.isfinite(b[1]) and abs(a[1] - b[1]) > 5e-3:
                     return ('the %s bound of the posynomial with exponent rows %s changes from %r to %r under the invertible linear change of '
                             'variables alpha -> alpha @ %s' % (form, rows.tolist(), a[1], b[1], T.tolist()))
+            # (4) translations far enough to make the data ill scaled: a bound REPORTED AS SOLVED is the bound of f (a solve that the solver only
+            #     finishes to reduced accuracy must say so)
+            ft = so.Signomial(np.array([[0.0], [2.0], [3.0], [1.6]]), np.array([1.79, 1.04, 0.93, -1.02]))
+            base = {form: ss.sig_relaxation(ft, form=form).solve(verbose=False) for form in ('primal', 'dual')}
+            for t in (2.5, 3.0):
+                gt = ft.shift_coordinates(np.array([t]))
+                for form in ('primal', 'dual'):
+                    r = ss.sig_relaxation(gt, form=form).solve(verbose=False)
+                    b0 = base[form]
+                    if r[0] == 'solved' and b0[0] == 'solved' and not close(r[1], b0[1], 1e-4):
+                        return ('the %s bound of f(x + %g) is reported as (solved, %r) but the bound of f is %r (f = 1.79 + 1.04 e^2x + 0.93 e^3x - 1.02 e^1.6x)'
+                                % (form, t, r[1], b0[1]))
             # (3) kernel_basis=True, exponents (30, 0) and (-30, 2e-5): the bound of a posynomial with infimum 0 stays 0
             fk = so.Signomial(np.array([[0.0, 0.0], [30.0, 0.0], [-30.0, 2e-5]]), np.array([-2.0, 1.0, 1.0]))
             vals = {}
